@@ -4,6 +4,7 @@
   determinism [runs]           every property: the same run indices executed in separate processes, with different
                                partitions (1, 7 and 16 workers) and in reverse order, must give identical plan and trace hashes
   regressions                  replay every regressions/*.plan on the current tree (all must hold)
+  reach [runs]                 coverage build: which functions named in each property's anchors the sampled plans execute
   mutants [ids...]             apply each seeded/<id>/patch.diff and mutants/*.patch to a scratch copy of /repo and run the
                                tagged checks against it (VERIF_REPO); every one must be reported as a VIOLATION
 """
@@ -179,9 +180,68 @@ def write_detection_table(results):
     open(os.path.join(VERIF, "seeded", "DETECTION.md"), "w").write("\n".join(lines) + "\n")
 
 
+def reach(args):
+    """Coverage-instrumented build (gcc --coverage) replays a sample of each property's quick-tier plans and reports which of the
+    functions named in the property's anchors.mechanism were executed. Written to reach/REACH.json and reach/REACH.md."""
+    import re
+    exe = builder.build("cov")
+    objdir = os.path.dirname(exe)
+    props = {}
+    for line in open(os.path.join(VERIF, "properties.jsonl")):
+        d = json.loads(line)
+        names = set()
+        for m in d["anchors"]["mechanism"]:
+            for tok in re.findall(r"[A-Za-z_][A-Za-z0-9_]{3,}", m.get("where", "")):
+                names.add(tok)
+        props[d["id"]] = names
+    n = int(args[0]) if args else 300
+    out = {}
+    os.makedirs(os.path.join(VERIF, "reach"), exist_ok=True)
+    for prop in PROPS:
+        for f in glob.glob(os.path.join(objdir, "*.gcda")):
+            os.remove(f)
+        count = n if prop not in ("C07", "C12", "C13", "C20") else max(8, n // 8)
+        # one process: concurrent processes merging into the same .gcda files lose counts
+        subprocess.run([exe, "trace", prop, "quick", "1", "0", str(count)], stdout=subprocess.DEVNULL, stderr=subprocess.DEVNULL)
+        executed, known = set(), set()
+        tmp = os.path.join(objdir, "gcov-tmp")
+        shutil.rmtree(tmp, ignore_errors=True)
+        os.makedirs(tmp)
+        gcdas = [f for f in glob.glob(os.path.join(objdir, "*.gcda")) if os.path.basename(f).startswith(("lib_", "src_"))]
+        for g in gcdas:
+            # one gcov call per object: in one batch call, templates #included by several translation units are misreported
+            r = sh(["gcov", "-f", "-o", objdir, g], cwd=tmp)
+            cur = None
+            for line in r.stdout.splitlines():
+                if line.startswith("Function '"):
+                    cur = line.split("'")[1]
+                    known.add(cur)
+                elif line.startswith("Lines executed:") and cur:
+                    pct = float(line.split(":")[1].split("%")[0])
+                    if pct > 0:
+                        executed.add(cur)
+                    cur = None
+        shutil.rmtree(tmp, ignore_errors=True)
+        anchored = sorted(x for x in props[prop] if x in known)
+        hit = [x for x in anchored if x in executed]
+        miss = [x for x in anchored if x not in executed]
+        out[prop] = {"runs_replayed": count, "anchor_functions": len(anchored), "reached": len(hit), "not_reached": miss,
+                     "library_and_tool_functions_executed": len(executed), "of": len(known)}
+        print("%s: %d of %d anchored functions reached (%d of %d functions overall)%s" % (
+            prop, len(hit), len(anchored), len(executed), len(known), "; not reached: " + ", ".join(miss) if miss else ""))
+    json.dump(out, open(os.path.join(VERIF, "reach", "REACH.json"), "w"), indent=1, sort_keys=True)
+    with open(os.path.join(VERIF, "reach", "REACH.md"), "w") as f:
+        f.write("# Reach of the quick-tier plans (gcc --coverage build, `./check selftest reach`)\n\n| property | runs replayed | anchored functions reached | not reached | functions executed overall |\n|---|---|---|---|---|\n")
+        for prop in PROPS:
+            o = out[prop]
+            f.write("| %s | %d | %d / %d | %s | %d / %d |\n" % (prop, o["runs_replayed"], o["reached"], o["anchor_functions"], ", ".join(o["not_reached"]) or "-",
+                                                            o["library_and_tool_functions_executed"], o["of"]))
+    return 0
+
+
 def main(args):
     if not args:
         print(__doc__)
         return 2
     what, rest = args[0], args[1:]
-    return {"simfs": simfs, "determinism": determinism, "regressions": regressions, "mutants": mutants}.get(what, lambda a: 2)(rest)
+    return {"simfs": simfs, "determinism": determinism, "regressions": regressions, "mutants": mutants, "reach": reach}.get(what, lambda a: 2)(rest)
